@@ -572,6 +572,7 @@ package rpc
 //@ func (*Conn).NumCalls
 //@   property C15
 //@   requires conn != nil
+//@   ghostset gb_sawIdle(conn) = (n == 0)
 //@   ensures true
 
 //@ func (*Conn).Close
@@ -647,7 +648,7 @@ package rpc
 //@   requires conn != nil && ctx != nil && call != nil && conn.bufferPool != nil
 //@   requires [C02] gf_tok(call) == 2 && !gb_internal(call)
 //@   ensures [C02] gf_tok(call) == 0 && gg_dones() == old(gg_dones()) + 1
-//@   atcall buffer.(*Pool).PutBuffer#1: [C11] len(old(ctx.value)) == 0 || arr(call.Value) != arr(buf) || arr(call.Value) == arr(old(call.Buffer))
+//@   atcall buffer.(*Pool).PutBuffer#1: [C11 C01] len(old(ctx.value)) == 0 || arr(call.Value) != arr(buf) || arr(call.Value) == arr(old(call.Buffer))
 //@   ensures [C01] gg_rbody() == old(gg_rbody()) + 1
 //@   ensures [C19] implies(len(old(ctx.value)) > 0 && cap(old(call.Buffer)) >= len(old(ctx.value)), arr(call.Value) == arr(old(call.Buffer)) && len(call.Value) == len(old(ctx.value)))
 //@   ensures [C01] implies(len(old(ctx.value)) > 0, len(call.Value) == len(old(ctx.value)))
@@ -659,6 +660,8 @@ package rpc
 //@   property C01 C02 C05 C06 C08 C09 C19
 //@   requires readable(conn, ctx)
 //@   atcall (*Call).done#1: [C05] isnil(conn.readSched)
+//@   atcall scheduler.Schedule#1: [C05] isnil(conn.readSched)
+//@   atcall (*Conn).finishCall#1: [C05] isnil(conn.readSched)
 //@   atcall buffer.(*Pool).PutBuffer#2: [C06 C11] call.Error == ErrShutdown || errarr(call.Error) != arr(ctx.buffer)
 //@ func (*Conn).read$1
 //@   property C02 C05
@@ -780,24 +783,39 @@ package rpc
 
 //@ lockinv stream.mut
 //@   property C10
-//@   guards stream.events
-//@   invariant true
+//@   guards stream.events, stream.closed, Elem<*event>
+//@   invariant forall(i, 0, len(self.events), self.events[i] != nil && (len(self.events[i].Value) == 0 || gb_pooled(arr(self.events[i].Value))))
 
+//@ extern stream.unmarshal
+//@   params data, v
+//@   modifies fresh
+//@ func freeEvent
+//@   requires e != nil
+//@ func PutBuffer
+//@   property C11
+//@   ghostset gg_putbuf() = gg_putbuf() + 1
+//@ func (*stream).ReadMessage
+//@   property C10 C11
+//@   requires w != nil && w.unmarshal != nil && (cap(b) == 0 || !gb_pooled(arr(b)))
+//@   loop 1: invariant w.closed <= 0
+//@   atcall sync.(*Cond).Wait#1: [C10] w.closed <= 0
+//@   atcall stream.unmarshal#1: [C11] w.noCopy || len(arg0) == 0 || arr(arg0) != arr(e.Value)
+//@   atcall stream.unmarshal#2: [C11] w.noCopy || len(arg0) == 0 || arr(arg0) != arr(e.Value)
 //@ func (*stream).stop
 //@   property C10
 //@   requires w != nil
+//@   modifies w.closed
 //@   ensures [C10] w.closed == 1
 //@ func (*stream).trigger
-//@   property C09
-//@   requires w != nil && e != nil
-//@ field stream.closed: quiescent
+//@   property C09 C11
+//@   requires w != nil && e != nil && (len(e.Value) == 0 || gb_pooled(arr(e.Value)))
 //@ func (*stream).WriteMessage
 //@   property C10
 //@   requires w != nil && w.write != nil
-//@   ensures [C10] implies(old(w.closed) > 0, err == ErrStreamShutdown)
 //@ func (*stream).Close
 //@   property C10
 //@   requires w != nil && w.close != nil
+//@   modifies w.closed
 //@   ensures [C10] w.closed == 1
 
 //@ func (*Conn).NewStream
@@ -866,7 +884,7 @@ package rpc
 
 //@ extern buffer.(*Pool).GetBuffer
 //@   params p, size
-//@   ensures fresh(result) && implies(size > 0, len(result) == size)
+//@   ensures fresh(result) && implies(size > 0, len(result) == size) && (cap(result) == 0 || gb_pooled(arr(result)))
 //@ extern buffer.(*Pool).PutBuffer
 //@   params p, buf
 //@   ghostset gg_putbuf() = gg_putbuf() + 1
@@ -1044,6 +1062,7 @@ package rpc
 //@   ghostat mapupdate map[uint64]*Context#1: gb_registered(arg0) = true
 //@   ensures [C04] gg_exec() <= old(gg_exec()) + 1 && gg_wresp() <= old(gg_wresp()) + 1
 //@   ensures streamsOK(streams)
+//@   atcall scheduler.Schedule#1: [C05] isnil(sched)
 //@ func (*Server).ServeRequest$1
 //@   requires true
 //@ func (*Server).ServeRequest$2
@@ -1087,9 +1106,26 @@ package rpc
 //@ func (*Server).ServeCodec
 //@   property C04 C08 C10 C20
 //@   requires srvOK(server) && !isnil(codec)
-//@   loop 1: invariant streamsOK(streams) && fresh(streams) && !isnil(readStream) && !isnil(pipeline) && !isnil(messages)
+//@   loop 1: invariant streamsOK(streams) && fresh(streams) && !isnil(readStream) && !isnil(pipeline) && !isnil(messages) && implies(server.pipelining, !isnil(sched))
+//@   atcall (*Server).ServeRequest#1: [C05] implies(server.pipelining, !isnil(arg4))
 //@   loop 2: invariant streamsOK(streams)
 //@   ensures [C20] gg_scodecClose() == old(gg_scodecClose()) + 1
 //@ func (*Server).ServeCodec$1
-//@   property C04 C08
+//@   property C04 C05 C08
 //@   requires srvOK(server) && ctxOK(ctx) && streamsOK(streams) && !gb_registered(ctx)
+//@   requires [C05] implies(server.pipelining, !isnil(sched))
+//@   atcall (*Server).ServeRequest#1: [C05] implies(server.pipelining, !isnil(arg4))
+
+//@ pure sctxOK(c *ServerContext) bool = c != nil && !isnil(c.codec) && c.recving != nil && c.wg != nil && !isnil(c.messages) && !isnil(c.pipeline) && !isnil(c.readStream) && streamsOK(c.streams)
+//@ iface socket.Messages.ReadMessage
+//@   params m, buf
+//@ func (*Server).listen$3
+//@   property C04 C05 C08 C10 C20
+//@   requires srvOK(server) && typeis(context, ServerContext) && sctxOK(context.(*ServerContext))
+//@   loop 1: invariant sctxOK(svrctx) && gg_scodecClose() == old(gg_scodecClose()) + 1 && forall(i, 0, rangeidx(), svrctx.streams[rangekey(i)].stream.closed == 1)
+//@   atcall (*Server).ServeRequest#1: [C05] holdsptr(svrctx.recving)
+//@   atcall scheduler.Scheduler.Schedule#1: [C05] holdsptr(svrctx.recving)
+//@   ensures [C10 C20] implies(gg_scodecClose() == old(gg_scodecClose()) + 1, forallkey(s, context.(*ServerContext).streams, context.(*ServerContext).streams[s].stream.closed == 1))
+//@ func (*Server).listen$3$1
+//@   property C04 C05 C08
+//@   requires srvOK(server) && ctxOK(ctx) && sctxOK(svrctx) && !gb_registered(ctx)
